@@ -49,19 +49,24 @@ def run_step(q, sel, form, op):
     kind = op[0]
     rows = []
     BIG['calls'], BIG['raise_at'] = 0, None
+    IQ.EPOCH['n'] += 1
     if kind == 'full':
         for r in q.evaluate():
             rows.append(show(r))
     elif kind == 'take':
         it = q.evaluate()
+        exhausted = False
         try:
             for _ in range(op[2]):
                 try:
                     rows.append(show(next(it)))
                 except StopIteration:
+                    exhausted = True
                     break
         finally:
             it.close()
+        if not exhausted:
+            IQ.EPOCH['incomplete'].add(IQ.EPOCH['n'])
     elif kind == 'raise':
         BIG['raise_at'] = op[2]
         try:
@@ -69,6 +74,7 @@ def run_step(q, sel, form, op):
                 rows.append(show(r))
         except Boom:
             rows.append('!')
+            IQ.EPOCH['incomplete'].add(IQ.EPOCH['n'])
         finally:
             BIG['raise_at'] = None
     return rows
@@ -115,8 +121,9 @@ def run_lazy1(case):
 
 def run_multi(case):
     res = {}
-    for cfg in ('off', 'on'):
+    for cfg in ('off', 'on', 'onref'):
         (disable_caching if cfg == 'off' else enable_caching)()
+        IQ._cd.IndexedCache.retrieve = IQ._ref_retrieve if cfg == 'onref' else IQ._retrieve
         objs = make_heap(case)
         IQ.LIST_MODE[0] = bool(case.get('list_items'))
         base = dict(case)
@@ -140,6 +147,8 @@ def run_multi(case):
             res[cfg] = 'X build:' + type(e).__name__ + ':' + str(e)[:80]
             continue
         obs = []
+        IQ.TRACE['mixed'], IQ.TRACE['retrievals'] = False, 0
+        IQ.EPOCH['incomplete'], IQ.EPOCH['served_incomplete'] = set(), False
         for op in case['ops']:
             q, sel = built[op[1]]
             form = case['pool'][op[1]].get('form')
@@ -148,7 +157,12 @@ def run_multi(case):
         if not user_data_intact(case, objs):
             obs.append('X user-data-modified')
         res[cfg] = obs
+        if cfg == 'on':
+            res['mixed_level_retrieval'] = IQ.TRACE['mixed']
+            res['cache_retrievals'] = IQ.TRACE['retrievals']
+            res['served_from_incomplete_evaluation'] = IQ.EPOCH['served_incomplete']
     enable_caching()
+    IQ._cd.IndexedCache.retrieve = IQ._retrieve
     return res
 
 
